@@ -259,6 +259,20 @@ def run_cli(case):
         return Outcome(False, True, cls, "expected %d records, got %d" % (steps + 1, len(xs)), sig="c03:cli:records")
     theta = 2 * np.pi / steps
     r0 = np.linalg.norm(xs[0])
+    if case.get("off_via_fptype"):
+        # both ways of running "with no damping" must give the same centroid track (the rotation oracle below has a
+        # first-order allowance of 2 pi/steps that would hide a slow inward spiral)
+        o2 = dict(o, DampingTime=0.0)
+        o2.pop("FPType")
+        r2 = cli.run(["-c", "/dev/null", "-o", "r2.h5"] + cli.optargs(o2), wd)
+        if r2.rc != 0 or "Finished." not in r2.out:
+            return Outcome(False, True, cls, "run failed: %s %s" % (r2.out[-300:], r2.err[-300:]), sig="c03:cli:runfail")
+        h2 = cli.H5(os.path.join(wd, "r2.h5"))
+        xs2 = np.stack([h2["/BunchPosition/data"][:, 0].astype(np.float64), h2["/EnergyAverage/data"][:, 0].astype(np.float64)], axis=1)
+        dist = float(np.linalg.norm(xs - xs2, axis=1).max()) if len(xs2) == len(xs) else 1e9
+        if dist > 1e-3 * r0 + 2e-4:
+            return Outcome(False, bool(r0 >= 0.2), cls, "cli: with FPType=0 (no Fokker-Planck term, default damping time) the centroid track differs by %.4g from the run with DampingTime=0 (start radius %.3f, %d steps): something still damps" %
+                           (dist, r0, steps), sig="c03:cli:nodamping_routes", metrics={"nodamping_routes_dist": dist / (1e-3 * r0 + 2e-4)})
     extra = 0.0
     if not case["linear"]:
         # sin(x) = x - x^3/6: relative force error (q*bl2phase)^2/6 accumulated over a period, plus the synchronous-phase offset
